@@ -18,6 +18,26 @@ for line in p.stdout.decode("utf-8", "replace").splitlines():
         k = "%s::%s" % (e["Package"], e["Test"])
         (passed if e["Action"] == "pass" else failed).add(k)
 missing = sorted(want - passed)
+# timing/concurrency tests fail spuriously on a loaded machine: re-run the not-passed ones alone (twice at most)
+for attempt in range(2):
+    if not missing or len(missing) > 60:
+        break
+    bypkg = {}
+    for m in missing:
+        pkg, t = m.split("::", 1)
+        bypkg.setdefault(pkg, set()).add(t.split("/")[0])
+    for pkg, tests in bypkg.items():
+        rel = "./" + pkg[len("github.com/valyala/fasthttp"):].lstrip("/")
+        q = subprocess.run(["go", "test", "-json", "-vet=off", "-count=1", "-p", "1", "-timeout", "10m", "-run", "^(" + "|".join(sorted(tests)) + ")$", rel],
+                           cwd=repo, env=env, stdout=subprocess.PIPE, stderr=subprocess.STDOUT)
+        for line in q.stdout.decode("utf-8", "replace").splitlines():
+            try:
+                e = json.loads(line)
+            except Exception:
+                continue
+            if e.get("Test") and e.get("Action") == "pass":
+                passed.add("%s::%s" % (e["Package"], e["Test"]))
+    missing = sorted(want - passed)
 print("baseline: %d/%d stable tests passed; %d failed overall" % (len(want & passed), len(want), len(failed)))
 for m in missing[:40]:
     print("  NOT PASSED:", m)
